@@ -18,6 +18,10 @@ open RqModel.Values RqModel.Util
 
 /-- what SQLite must receive for a JSON parameter (the specification) -/
 def expected : JParam → Option SqlVal
+  | .num lit tok =>
+    match parseInt10 lit with
+    | some z => some (.integer z)
+    | none => if floatOverflows lit then none else some (.real (.fin tok))
   | .intLit z => if int64Min ≤ z ∧ z ≤ int64Max then some (.integer z) else some (.real (bigToFlt z))
   | .fltLit f => some (.real f)
   | .bool b => some (.integer (if b then 1 else 0))
@@ -38,6 +42,11 @@ exactly those bytes (the empty array as the empty blob); anything else is reject
 theorem bind_preserves_type_and_value (j : JParam) :
     (makeParameter j).map bindParam = expected j := by
   cases j with
+  | num lit tok =>
+    simp only [makeParameter, expected]
+    cases parseInt10 lit with
+    | some z => simp [bindParam]
+    | none => simp only; split <;> simp [bindParam]
   | intLit z => simp only [makeParameter, expected]; split <;> simp [bindParam]
   | fltLit f => simp [makeParameter, expected, bindParam]
   | bool b => simp [makeParameter, expected, bindParam]
@@ -59,6 +68,153 @@ theorem bind_injective (p q : Param) (hp : ∀ b, p ≠ .b b) (hq : ∀ b, q ≠
 example : (makeParameter (.intLit 9223372036854775807)).map bindParam = some (.integer 9223372036854775807) ∧
     (makeParameter (.arr [])).map bindParam = some (.blob []) ∧
     (makeParameter (.arr [some 1, some 256])).map bindParam = none := by decide
+
+/-! ### json.Number: 64-bit integers and floats -/
+
+/-- JSON's only sign -/
+def splitMinus : List Char → Bool × List Char
+  | [] => (false, [])
+  | c :: r => if c = '-' then (true, r) else (false, c :: r)
+
+/-- the mathematical value of an integer literal as JSON writes it: an optional `-`, then digits -/
+def intLiteralValue (lit : String) : Option Int :=
+  (decDigits (splitMinus lit.toList).2).map fun n =>
+    if (splitMinus lit.toList).1 then -(n : Int) else (n : Int)
+
+def digitStep (acc : Option Nat) (ch : Char) : Option Nat := do
+  let a ← acc
+  if '0' ≤ ch ∧ ch ≤ '9' then pure (a * 10 + (ch.toNat - '0'.toNat)) else none
+
+theorem foldl_digitStep_none (l : List Char) : l.foldl digitStep none = none := by
+  induction l with
+  | nil => rfl
+  | cons a l ih => simpa [List.foldl_cons, digitStep] using ih
+
+theorem foldl_digits (cs : List Char) (acc : Option Nat) (n : Nat) (h : cs.foldl digitStep acc = some n) :
+    ∀ ch ∈ cs, '0' ≤ ch ∧ ch ≤ '9' := by
+  induction cs generalizing acc with
+  | nil => intro ch hch; cases hch
+  | cons c cs ih =>
+    simp only [List.foldl_cons] at h
+    intro ch hch
+    by_cases hd : '0' ≤ c ∧ c ≤ '9'
+    · simp only [List.mem_cons] at hch
+      rcases hch with rfl | hch
+      · exact hd
+      · exact ih _ h ch hch
+    · exfalso
+      have : digitStep acc c = none := by
+        cases acc <;> simp [digitStep, hd]
+      rw [this, foldl_digitStep_none] at h
+      cases h
+
+theorem decDigits_all_digits (cs : List Char) (n : Nat) (h : decDigits cs = some n) :
+    ∀ ch ∈ cs, '0' ≤ ch ∧ ch ≤ '9' := by
+  unfold decDigits at h
+  split at h
+  · cases h
+  · exact foldl_digits cs (some 0) n h
+
+theorem splitSign_eq_splitMinus (cs : List Char) (n : Nat) (h : decDigits (splitMinus cs).2 = some n) :
+    splitSign cs = splitMinus cs := by
+  cases cs with
+  | nil => rfl
+  | cons c r =>
+    by_cases hm : c = '-'
+    · simp [splitSign, splitMinus, hm]
+    · by_cases hp : c = '+'
+      · exfalso
+        simp only [splitMinus, hm, if_false] at h
+        have := decDigits_all_digits _ n h c (by simp)
+        rw [hp] at this
+        exact absurd this (by decide)
+      · simp [splitSign, splitMinus, hm, hp]
+
+/-- Full 64-bit integers are bound exactly: an integer literal whose value lies in the int64 range is
+bound as INTEGER with exactly that value (both extremes included). -/
+theorem int64_literals_bound_exactly (lit tok : String) (z : Int) (hv : intLiteralValue lit = some z)
+    (hr : int64Min ≤ z ∧ z ≤ int64Max) : (makeParameter (.num lit tok)).map bindParam = some (.integer z) := by
+  unfold intLiteralValue at hv
+  cases hd : decDigits (splitMinus lit.toList).2 with
+  | none => simp [hd] at hv
+  | some n =>
+    have hs := splitSign_eq_splitMinus lit.toList n hd
+    simp [hd] at hv
+    have hp : parseInt10 lit = some z := by
+      unfold parseInt10
+      rw [hs, hd]
+      simp only [hv]
+      rw [if_pos hr]
+    simp [makeParameter, hp, bindParam]
+
+/-- THE FULL STATEMENT over all integer literals (false outside int64) -/
+def integer_literals_bound_as_integers_full : Prop :=
+  ∀ (lit tok : String) (z : Int), intLiteralValue lit = some z →
+    (makeParameter (.num lit tok)).map bindParam = some (.integer z)
+
+set_option exponentiation.threshold 5000 in
+/-- just outside the range an integer literal is bound as the nearest DOUBLE (a REAL), not an integer -/
+theorem integer_literal_outside_int64_witness :
+    (makeParameter (.num "9223372036854775808" "t")).map bindParam = some (.real (.fin "t")) ∧
+    (makeParameter (.num "-9223372036854775809" "t")).map bindParam = some (.real (.fin "t")) ∧
+    intLiteralValue "9223372036854775808" = some 9223372036854775808 := by decide
+
+theorem integer_literals_bound_as_integers_full_is_false : ¬ integer_literals_bound_as_integers_full := by
+  intro h
+  have := h "9223372036854775808" "t" 9223372036854775808 integer_literal_outside_int64_witness.2.2
+  rw [integer_literal_outside_int64_witness.1] at this
+  cases this
+
+/-- a number written with a fraction or an exponent is never bound as an integer (1.0 and 1e3 are
+REALs) -/
+theorem non_integer_literal_is_never_integer (lit tok : String)
+    (h : '.' ∈ lit.toList ∨ 'e' ∈ lit.toList ∨ 'E' ∈ lit.toList) :
+    ∀ z, makeParameter (.num lit tok) ≠ some (.i z) := by
+  intro z hz
+  have hnone : parseInt10 lit = none := by
+    unfold parseInt10
+    cases hd : decDigits (splitSign lit.toList).2 with
+    | none => rfl
+    | some n =>
+      exfalso
+      have hall := decDigits_all_digits _ n hd
+      -- the sign, if any, is the first character; '.', 'e', 'E' are not signs, so they are among the digits
+      have hin : ∀ ch, ch ∈ lit.toList → ch ≠ '-' → ch ≠ '+' → ch ∈ (splitSign lit.toList).2 := by
+        intro ch hch h1 h2
+        cases hcs : lit.toList with
+        | nil => rw [hcs] at hch; cases hch
+        | cons c r =>
+          rw [hcs] at hch
+          simp only [List.mem_cons] at hch
+          by_cases hm : c = '-'
+          · rcases hch with rfl | hch
+            · exact absurd hm h1
+            · simp [splitSign, hm, hch]
+          · by_cases hp : c = '+'
+            · rcases hch with rfl | hch
+              · exact absurd hp h2
+              · simp [splitSign, hm, hp, hch]
+            · simp only [splitSign, hm, hp, if_false, List.mem_cons]
+              exact hch
+      rcases h with h | h | h
+      · exact absurd (hall _ (hin _ h (by decide) (by decide))) (by decide)
+      · exact absurd (hall _ (hin _ h (by decide) (by decide))) (by decide)
+      · exact absurd (hall _ (hin _ h (by decide) (by decide))) (by decide)
+  simp only [makeParameter, hnone] at hz
+  split at hz <;> cases hz
+
+set_option exponentiation.threshold 5000 in
+/-- boundary values: both int64 extremes are integers; -0 is the integer 0; a literal whose magnitude
+rounds to infinity is REJECTED (json.Number.Float64 fails), the largest finite double is accepted -/
+example :
+    makeParameter (.num "9223372036854775807" "t") = some (.i 9223372036854775807) ∧
+    makeParameter (.num "-9223372036854775808" "t") = some (.i (-9223372036854775808)) ∧
+    makeParameter (.num "-0" "t") = some (.i 0) ∧
+    makeParameter (.num "1e3" "t") = some (.d (.fin "t")) ∧ makeParameter (.num "1.0" "t") = some (.d (.fin "t")) ∧
+    makeParameter (.num "1E400" "t") = none ∧ makeParameter (.num "-1e400" "t") = none ∧
+    makeParameter (.num "1.7976931348623158e308" "t") = some (.d (.fin "t")) ∧
+    makeParameter (.num "1.7976931348623159e308" "t") = none ∧
+    makeParameter (.num "1e-400" "t") = some (.d (.fin "t")) := by decide
 
 /-- named parameters (members of a JSON object) keep their name and are converted like positional
 ones: every produced parameter carries its member's name and the value `makeParameter` gives it -/
